@@ -36,6 +36,14 @@ def run(ctx):
     rnd.shuffle(sim)
     sim = sim[: (800 if thorough else 60)]
     items += [(list(c), rnd.random() < 0.3, rnd.random() < 0.3) for c in sim]
+    # pointers handed over through channels (plain receive and select with a non-pointer case first) with one step,
+    # the source or the sink on another goroutine
+    chanfam = sem.enum_chains(ctx, 4, ["plain", "go"], maxdeco=1, tag="chanfam", fams=["chan", "field"])
+    chanfam = sorted({tuple(c) for c in chanfam if len(c) >= 3 and any(semgen.STEPS[s_][2] == "chan" for s_, _ in c)})
+    rnd.shuffle(chanfam)
+    chanfam = chanfam[: (len(chanfam) if thorough else 100)]
+    items += [(list(c), (not any(d == "go" for _, d in c)) and i % 2 == 0, (not any(d == "go" for _, d in c)) and i % 2 == 1)
+              for i, c in enumerate(chanfam)]
     items += [(c, False, False) for c in sem.pinned_chains(ctx.prop)]
     sem.taint_flow_check(ctx, items,
                          lambda it, name: semgen.build_chain(it[0], name=name, src_in_go=it[1], sink_in_go=it[2]),
